@@ -70,6 +70,11 @@ def handle (j : Json) : Json :=
     match ops with
     | [] => (acc, snaps)
     | oj :: rest =>
+      if getStr oj "op" == "unsuball" then
+        -- Dispatcher.unsubscribe_all(): the GENERATED fact says it is the loop over the public tokens
+        let e' := (Engine.run beh e log (Engine.unsubscribeAllOps e)).1
+        go e' log rest (acc.push Json.null) (if snap then snaps.push (snapshot e') else snaps)
+      else
       match opOf oj with
       | none => (acc.push (Json.str "bad-op"), snaps)
       | some op =>
